@@ -70,6 +70,8 @@ var images = map[string]imageClass{
 	"twomanifests":  {Name: "twomanifests", Files: with(objs("a"), map[string]string{"manifest.yaml": baseManifest.YAML(), "manifest.yml": baseManifest.YAML()}), Invalid: "load"},
 	"badyaml":       {Name: "badyaml", Files: with(objs("a"), map[string]string{"manifest.yaml": baseManifest.YAML(), "z.yaml": "kind: [unclosed\n"}), Invalid: "object"},
 	"nophase":       {Name: "nophase", Files: with(objs("a"), map[string]string{"manifest.yaml": baseManifest.YAML(), "z.yaml": pkgw.WidgetYAML("Widget", "z", "", "1", map[string]string{"note": "no phase"})}), Invalid: "object"},
+	"dupfiles": {Name: "dupfiles", Files: with(objs("a"), map[string]string{"manifest.yaml": baseManifest.YAML(), "sub/again.yaml": pkgw.WidgetYAML("Widget", "a", "p2", "2", nil)}), Invalid: "object"},
+	"dupdocs":  {Name: "dupdocs", Files: with(objs("a"), map[string]string{"manifest.yaml": baseManifest.YAML(), "two.yaml": pkgw.WidgetYAML("Widget", "q", "p1", "1", nil) + "---\n" + pkgw.WidgetYAML("Widget", "q", "p2", "1", nil)}), Invalid: "object"},
 	"openshiftonly": {Name: "openshiftonly", Files: with(objs("a", "b"), map[string]string{"manifest.yaml": manifestWith("  - platform: [OpenShift]\n")}), Invalid: "constraint-platform"},
 	"k8s130":        {Name: "k8s130", Files: with(objs("a", "b"), map[string]string{"manifest.yaml": manifestWith("  - platformVersion:\n      name: Kubernetes\n      range: \">=1.30.0\"\n")}), Invalid: "constraint-version"},
 	"unique":        {Name: "unique", Files: with(objs("a", "b"), map[string]string{"manifest.yaml": manifestWith("  - uniqueInScope: {}\n")}), Invalid: "constraint-unique"},
@@ -566,7 +568,7 @@ func PauseSystems(quick bool) []*world.System {
 }
 
 func scenarios(quick bool) []scenario {
-	all := []string{"v1", "v2", "tmpl", "missing", "nomanifest", "twomanifests", "badyaml", "nophase", "openshiftonly", "k8s130", "unique"}
+	all := []string{"v1", "v2", "tmpl", "missing", "nomanifest", "twomanifests", "badyaml", "nophase", "dupfiles", "dupdocs", "openshiftonly", "k8s130", "unique"}
 	sort.Strings(all)
 	out := []scenario{
 		{Env: "k8s-1.27", Images: append([]string{"v1"}, all...), Confs: []string{"none", "x1", "bad"}, Edits: 2},
@@ -593,7 +595,7 @@ func scenarios(quick bool) []scenario {
 
 func run(o checks.Opts) *report.Report {
 	rep := report.New("C16", "bfs")
-	rep.Rule = "explicit-state BFS: Package p whose image is switched among {valid v1, valid v2, templated, not in registry, no manifest, two manifests, malformed object YAML, object without phase annotation, OpenShift-only, Kubernetes>=1.30, uniqueInScope, and every manifest constraint entry of the grammar {no platform, [Kubernetes], [OpenShift]} x {no version, Kubernetes met/unmet, OpenShift met/unmet} as one entry and as two entries in either order} and whose config among {none, x:1, x:2, schema-violating}, 2-3 edits, pause/unpause, a foreign write to the ObjectDeployment landing before each API call of the pass (update conflict), every fault kind at every API call of the Package controller's pass, environments Kubernetes 1.27 / OpenShift 4.12, one system with all passes in one long-lived operator process, optional twin Package with the same manifest name; real Package controller + PackageDeployer + scripted registry; monitor on every Package pass; fresh-render differential oracle for valid specs"
+	rep.Rule = "explicit-state BFS: Package p whose image is switched among {valid v1, valid v2, templated, not in registry, no manifest, two manifests, malformed object YAML, object without phase annotation, the same object in two files / in two documents of one file, OpenShift-only, Kubernetes>=1.30, uniqueInScope, and every manifest constraint entry of the grammar {no platform, [Kubernetes], [OpenShift]} x {no version, Kubernetes met/unmet, OpenShift met/unmet} as one entry and as two entries in either order} and whose config among {none, x:1, x:2, schema-violating}, 2-3 edits, pause/unpause, a foreign write to the ObjectDeployment landing before each API call of the pass (update conflict), every fault kind at every API call of the Package controller's pass, environments Kubernetes 1.27 / OpenShift 4.12, one system with all passes in one long-lived operator process, optional twin Package with the same manifest name; real Package controller + PackageDeployer + scripted registry; monitor on every Package pass; fresh-render differential oracle for valid specs"
 	scs := scenarios(o.Quick())
 	rep.Bounds["systems"] = len(scs)
 	for i, sc := range scs {
